@@ -290,7 +290,62 @@ func c13Split(in, out string) error {
 		if len(text) <= 48 {
 			ev["text"] = text
 		}
-		return Result{OK: true, Events: []Event{ev}, Evals: 1, Nontrivial: len(pieces) >= 2, Key: string(raw)}
+		res := Result{OK: true, Events: []Event{ev}, Evals: 1, Nontrivial: len(pieces) >= 2, Key: string(raw)}
+		if c.Unit != "characters" {
+			return res
+		}
+		// the same small text as one paragraph through the chunkers: with a maximum this
+		// small every text is an oversized element, so the sentence packing of rag.Chunker
+		// (splitIntoSentences) sees every arrangement of letters, sentence ends and spaces
+		mkdoc := func() *model.Document {
+			d := model.NewDocument()
+			pg := model.NewPage(612, 792)
+			pg.Number = 1
+			pg.Elements = append(pg.Elements, &model.Paragraph{Text: text})
+			pg.Layout = &model.PageLayout{Paragraphs: []model.ParagraphInfo{{Text: text}}}
+			d.Pages = append(d.Pages, pg)
+			return d
+		}
+		cc := rag.DefaultChunkerConfig()
+		cc.MaxChunkSize, cc.TargetChunkSize, cc.MinChunkSize = c.Limit, c.Limit, 1
+		for _, run := range []struct {
+			api string
+			f   func() []string
+		}{
+			{"Chunker.Chunk", func() []string {
+				r, err := rag.NewChunkerWithConfig(cc).Chunk(mkdoc())
+				if err != nil {
+					panic(err)
+				}
+				var out []string
+				for _, ch := range r.Chunks {
+					out = append(out, ch.Text)
+				}
+				return out
+			}},
+			{"ChunkDocumentWithConfig", func() []string {
+				var out []string
+				for _, ch := range rag.ChunkDocumentWithConfig(mkdoc(), rag.DefaultChunkerConfig(), cfg).Chunks {
+					out = append(out, ch.Text)
+				}
+				return out
+			}},
+		} {
+			pieces, term, p := c13Timed(run.f)
+			res.Evals++
+			if p != nil {
+				x := fail("panic", "C13:panic:"+run.api, fmt.Sprintf("%s panics on the paragraph %q (characters max %d): %v", run.api, text, c.Limit, p),
+					map[string]interface{}{"mode": "split", "case": json.RawMessage(raw), "text": text})
+				x.Key, x.Evals = res.Key, res.Evals
+				return x
+			}
+			e2 := c13SplitEvent(text, pieces, term, c.Unit, c.Limit, 4, run.api, c13Tag(text))
+			if len(text) <= 48 {
+				e2["text"] = text
+			}
+			res.Events = append(res.Events, e2)
+		}
+		return res
 	})
 }
 
@@ -348,6 +403,14 @@ func c13Expand(p []c13Seg, want int) [][3]int {
 				case "nbsp":
 					runs = append(runs, [3]int{2, 1, 1})
 					total += 2
+				case "dotcap":
+					// a sentence end followed at once by a capital and a period: "word.A. "
+					runs = append(runs, [3]int{1, 3, 1}, [3]int{1, 0, 1}, [3]int{1, 3, 1}, [3]int{1, 1, 1})
+					total += 4
+				case "abbr":
+					// abbreviation-like tokens after the word: "word U.S.A. "
+					runs = append(runs, [3]int{1, 1, 1}, [3]int{1, 0, 1}, [3]int{1, 3, 1}, [3]int{1, 0, 1}, [3]int{1, 3, 1}, [3]int{1, 0, 1}, [3]int{1, 3, 1}, [3]int{1, 1, 1})
+					total += 8
 				case "dotfar":
 					// a sentence of 15 words: sentence ends about 150 bytes apart
 					for k := 0; k < 14; k++ {
@@ -613,7 +676,7 @@ func c13ProfileMode(in, out string) error {
 func c13RandProfile(rnd *rand.Rand) c13Profile {
 	var pr c13Profile
 	n := 1 + rnd.Intn(4)
-	seps := []string{"sp", "sp", "sp", "nl", "dot", "dot", "dotfar", "dotfar", "nbsp", "none", "para"}
+	seps := []string{"sp", "sp", "sp", "nl", "dot", "dot", "dotfar", "dotfar", "nbsp", "none", "para", "dotcap", "abbr"}
 	for j := 0; j < n; j++ {
 		s := c13Seg{Cw: 1 + rnd.Intn(4), Sep: seps[rnd.Intn(len(seps))]}
 		switch rnd.Intn(5) {
